@@ -435,6 +435,14 @@ def gen_c18(tier, rng):
                 yield ('eea-wordcount-pow2', 'eea2 %s %x %x %x %x %s' % (hx(rb(rng, 16)), rng.getrandbits(32), rng.randrange(32), rng.randrange(2), ln, words_hex(msg)), None)
                 if j <= 10 or tier == 'thorough':
                     yield ('eia-wordcount-pow2', 'eia %s %x %x %x %x %s' % (hx(rb(rng, 16)), rng.getrandbits(32), rng.randrange(32), rng.randrange(2), ln, words_hex(msg)), None)
+    # word counts at multiples of 2047 = 65504/32 (the 3GPP maximum message: a natural block size of a "bounded memory" rewrite), +-1
+    for kblk in ((1, 2, 3) if tier == 'thorough' else (1, 2)):
+        for nw in (2047 * kblk - 1, 2047 * kblk, 2047 * kblk + 1):
+            for ln in (32 * nw, 32 * nw - rng.randint(1, 31)):
+                msg = [rng.getrandbits(32) for _ in range(nw)]
+                yield ('eia-wordcount-3gpp-max-multiple', 'eia %s %x %x %x %x %s' % (hx(rb(rng, 16)), rng.getrandbits(32), rng.randrange(32), rng.randrange(2), ln, words_hex(msg)), None)
+                if kblk == 1 or tier == 'thorough':
+                    yield ('eea-wordcount-3gpp-max-multiple', 'eea2 %s %x %x %x %x %s' % (hx(rb(rng, 16)), rng.getrandbits(32), rng.randrange(32), rng.randrange(2), ln, words_hex(msg)), None)
     # structured message contents: all-zero / all-one words and bytes embedded between non-zero ones, zero prefix / suffix,
     # a single set bit (word-wise or byte-wise shortcuts over "empty" input words must not change positions)
     for t in range(40 if tier == 'thorough' else 16):
